@@ -94,7 +94,7 @@ def _fault(r):
     if k == 10:
         return _b64(dict(action="compile", code={"": HEADER + r.choice(gen_text.CONSTEXPR[1:8])}, options={})), "constexpr-misbehaves"
     if k == 11:
-        return _b64(dict(action="compile", code={"": HEADER + "x = '" + "y" * r.choice([1000, 100000, 700000]) + "'\ndb.Setting = 1\n"}, options={})), "very-long-line"
+        return _b64(dict(action="compile", code={"": HEADER + "x = '" + "y" * r.choice([1000, 100000, 700000, 49100, 49200, 790000, 1200000, 2500000]) + "'\ndb.Setting = 1\n"}, options={})), "very-long-line"  # request lines around 64 KiB, 1 MiB and well above
     if k == 12:
         return b"\xff\xfe\x00garbage\xc3\x28", "raw-non-utf8-bytes"
     if k == 13:
